@@ -2,6 +2,7 @@
 # runs every registered check (quick tier by default) sequentially; prints a summary line per check
 cd "$(dirname "$0")/.."
 tier="${1:-quick}"
+mkdir -p build evidence
 for id in $(python3 -c "import json;print(' '.join(c['property_id'] for c in json.load(open('MANIFEST.json'))['checks']))"); do
   s=$(date +%s)
   ./check $id --tier $tier > build/last_$id.log 2>&1; rc=$?
